@@ -237,12 +237,54 @@ def _block_of(repo, st):
     return [st]
 
 
+
+def field_strategy_sources(ctx, rule):
+    """--input-strategy governs the inputs of a cell (source and attachments), --output-strategy its outputs, the merge strategy
+    the metadata (args help texts).  "use-X given separately as input/output strategy equals resolving every open conflict in
+    that part to X" needs each field's entry of the strategy table to be derived from the option that governs it."""
+    repo = ctx.repo
+    fn = repo.func(mf.MNB + ':notebook_merge_strategies')
+    defs = local_defs(fn)
+    OPTS = ('input_strategy', 'output_strategy', 'merge_strategy', 'metadata_strategy')
+    EXPECT = {'/cells/*/source': 'input_strategy', '/cells/*/attachments': 'input_strategy', '/cells/*/outputs': 'output_strategy',
+              '/metadata': 'metadata_strategy', '/cells/*/metadata': 'metadata_strategy', '/cells/*/outputs/*/metadata': 'metadata_strategy'}
+
+    def roots(e, seen=()):
+        out = set()
+        for x in ast.walk(e):
+            if isinstance(x, ast.Name):
+                if x.id in OPTS:
+                    out.add(x.id)
+                elif x.id in defs and x.id not in seen:
+                    for v, k, st in defs[x.id]:
+                        out |= roots(v, seen + (x.id,))
+        return out
+    found = {}
+    for n in walk_no_nested(fn):
+        if isinstance(n, ast.Call) and isinstance(n.func, ast.Attribute) and n.func.attr == 'update' and n.args and isinstance(n.args[0], ast.Dict):
+            for k, v in zip(n.args[0].keys, n.args[0].values):
+                if const_val(k) in EXPECT:
+                    found[const_val(k)] = (roots(v), v)
+        if isinstance(n, ast.Assign) and isinstance(n.targets[0], ast.Subscript) and const_val(n.targets[0].slice) in EXPECT:
+            found[const_val(n.targets[0].slice)] = (roots(n.value), n.value)
+    if len(found) < 5:
+        raise AnalysisError('notebook_merge_strategies: per-field strategy entries not found (%d)' % len(found))
+    for path, (rs, node) in sorted(found.items()):
+        want = EXPECT[path]
+        ok = want in rs and not (rs - {want, 'merge_strategy'} if want != 'metadata_strategy' else rs - {'metadata_strategy', 'merge_strategy'})
+        # a field governed by input/output strategy may only additionally depend on merge_strategy through the documented default
+        ctx.inst(rule, mf.MNB + ':notebook_merge_strategies', '%s <- %s' % (path, sorted(rs)), ok,
+                 'derived from %s' % want if ok else
+                 'the strategy of %s is derived from %s instead of %s: with the options given separately, conflicts in this part are resolved to a different side '
+                 'than "resolve every open conflict of that part to the chosen side"' % (path, sorted(rs) or 'a constant', want), node)
+
 def run(ctx):
     """R10.6: in the mergers a strategy variable holds what the strategy table says for ITS path, nothing else.
 
     "Leave conflicts open, then resolve each to that side" attaches a use-* strategy to the paths the table names; the
     equivalence breaks as soon as a merger lets a strategy looked up for one path (the list) stand in for another
     (its items), because conflicts are then settled at a different level than the root resolver would settle them."""
+    ctx.rule('R10.7', 'each field of the strategy table is derived from the option that governs it: source and attachments from the input strategy, outputs from the output strategy, metadata from the merge strategy', floor=5)
     ctx.rule('R10.6', 'every *strategy variable of the mergers is defined only by a lookup in the strategy table (strategies.get(<path>)), never from another strategy variable', floor=6)
     _run_base(ctx)
     repo = ctx.repo
@@ -266,3 +308,4 @@ def run(ctx):
                          'leave-open-then-resolve reading does not do' % (name, other or ast.unparse(v)[:50]), st if isinstance(st, ast.AST) else fn)
     if n < 6:
         raise AnalysisError('fewer strategy lookups than expected in merging/generic.py')
+    field_strategy_sources(ctx, 'R10.7')
